@@ -1,7 +1,234 @@
-"""C12 -- System event triggers run once each, in phase and registration order: bounded stand-in (contracts/parts/C12_bounded.py)."""
-from contracts._parts import bounded, EXPLORATION_NOTE
+"""C12 -- System event triggers run once each, in phase and registration order.
 
-CONTRACTS = []
+Deductive, on the real _ThreePhaseEvent with up to two before-triggers, two during-triggers and one after-trigger of
+*arbitrary behaviour* (a before-trigger returns nothing, a Deferred that has not fired, one that has already succeeded or
+failed, or raises; the others return or raise), the pending Deferreds then fired in either order by callback or errback:
+
+  fireEvent / _continueFiring   every trigger runs exactly once; before-triggers first, in registration order; no during- or
+          after-trigger runs until every Deferred a before-trigger returned has fired -- whether it succeeds or fails; then
+          the during-triggers in order, then the after-triggers; a trigger that raises stops nothing; afterwards the lists
+          are empty and the event is back in its base state;
+  addTrigger      appends exactly one registration to the named phase (KeyError for an unknown phase, nothing changed);
+  removeTrigger   in the base state removes exactly the registration the handle names (ValueError if it is not there).
+The number of triggers per phase is bounded (stated); their behaviour and the firing order are not.
+Bounded (contracts/parts/C12_bounded.py): histories of add / remove / fire with up to 20 triggers, removal while firing.
+"""
+import z3
+
+from pyvc.api import *
+from pyvc import core
+from contracts._parts import bounded
+from twisted.internet import base, defer
+from twisted.internet.defer import Deferred
+from twisted.python.failure import Failure
+
+M = "twisted.internet.base"
+
+
+def ev(S, name):
+    return [e for e in S.trace if e.name == name]
+
+
+def mkd(c, called=False, result=None):
+    return c.make(Deferred, called=called, _suppressAlreadyCalled=False, paused=0, _canceller=None, result=result, debug=False,
+                  _debugInfo=None, callbacks=[], _runningCallbacks=False, _chainedTo=None)
+
+
+class TriggerRaised(Exception):
+    """what a misbehaving trigger raises"""
+
+
+def trigger_call(I, trig, *args, **kw):
+    """a trigger is called: recorded; its behaviour is whatever the scenario says for it"""
+    c = ctx()
+    name = trig._name
+    c.emit("run", trig, args, kw, {"pending": sum(1 for d in c.ghost["returned"].values() if not d._fields["called"])})
+    how = c.ghost["behaviour"][name]
+    if how == "raise":
+        raise TriggerRaised(name)
+    if how in ("pending", "fired", "failed"):
+        d = c.ghost["deferreds"][name]
+        c.ghost["returned"][name] = d
+        return d
+    return None
+
+
+class FireEvent(Contract):
+    prop = "C12"
+    module = M
+    function = "_ThreePhaseEvent.fireEvent"
+    also = ["_ThreePhaseEvent._continueFiring"]
+    differential = False
+    B = ("none", "pending", "fired", "failed", "raise")
+    inputs = dict(nb=OneOf(0, 1, 2), nd=OneOf(0, 1, 2), na=OneOf(0, 1), b1=OneOf(*B), b2=OneOf(*B), d1=OneOf("none", "raise"),
+                  d2=OneOf("none", "raise"), a1=OneOf("none", "raise"), order=OneOf("forward", "backward"), how1=OneOf("callback", "errback"),
+                  how2=OneOf("callback", "errback"))
+    calls = {"b1.__call__": trigger_call, "b2.__call__": trigger_call, "d1.__call__": trigger_call, "d2.__call__": trigger_call,
+             "a1.__call__": trigger_call, "_FastFailCtxMgr.__exit__": lambda I, *a: (ctx().emit("logged", None, ()), True)[1],
+             "Failure": "native"}
+    trusted = ["at most two before-, two during- and one after-trigger (stated bound); the behaviour of each and the firing order are arbitrary",
+               "_systemEventHandler (Logger.failureHandler) swallows and logs whatever the trigger raises: its __exit__ returns True "
+               "unconditionally (four lines)",
+               "triggers do not add or remove triggers while the event fires (that is exercised in the bounded tier)",
+               "DeferredList / Deferred are executed from their real source (their own contracts: C01, C03, C04)"]
+
+    def requires(self, i):
+        # parameters of triggers that do not exist are irrelevant: fix them to keep the case analysis small
+        r = True
+        if i.nb < 2:
+            r = band(r, i.b2 == "none", i.how2 == "callback")
+        if i.nb < 1:
+            r = band(r, i.b1 == "none", i.how1 == "callback", i.order == "forward")
+        if i.nd < 2:
+            r = band(r, i.d2 == "none")
+        if i.nd < 1:
+            r = band(r, i.d1 == "none")
+        if i.na < 1:
+            r = band(r, i.a1 == "none")
+        if not (i.b1 == "pending" and i.b2 == "pending"):
+            r = band(r, i.order == "forward")
+        if i.b1 != "pending":
+            r = band(r, i.how1 == "callback")
+        if i.b2 != "pending":
+            r = band(r, i.how2 == "callback")
+        return r
+
+    def setup(self, i):
+        names = ["b1", "b2"][:i.nb] + ["d1", "d2"][:i.nd] + ["a1"][:i.na]
+        trig = {n: self.opaque(n) for n in names}
+        behaviour = dict(b1=i.b1, b2=i.b2, d1=i.d1, d2=i.d2, a1=i.a1)
+        deferreds = {}
+        for n in ("b1", "b2"):
+            how = behaviour[n]
+            if how == "pending":
+                deferreds[n] = mkd(self)
+            elif how == "fired":
+                deferreds[n] = mkd(self, True, "done")
+            elif how == "failed":
+                deferreds[n] = mkd(self, True, Failure(TriggerRaised("failed before")))
+        evt = self.make(base._ThreePhaseEvent, state="BASE",
+                        before=[(trig[n], (), {}) for n in names if n[0] == "b"],
+                        during=[(trig[n], (), {}) for n in names if n[0] == "d"],
+                        after=[(trig[n], (), {}) for n in names if n[0] == "a"])
+
+        def drive(call):
+            call(evt, "fireEvent")
+            c = ctx()
+            c.emit("fireEvent-returned", None, ())
+            pend = [n for n in ("b1", "b2") if behaviour[n] == "pending" and n in names]
+            if i.order == "backward":
+                pend.reverse()
+            for n in pend:
+                how = i.how1 if n == "b1" else i.how2
+                d = deferreds[n]
+                if how == "callback":
+                    call(d, "callback", "later")
+                else:
+                    call(d, "errback", Failure(TriggerRaised("failed later")))
+                c.emit("fired", None, (n,))
+        return dict(drive=drive, objs=dict(e=evt), ghost=dict(behaviour=behaviour, deferreds=deferreds, returned={}, names=names))
+
+    def bounded_inputs(self, tier):
+        return iter(())
+
+    raises = ()
+
+    def _order(S):
+        names = S.ghost["names"]
+        runs = [e.target._name for e in ev(S, "run")]
+        # exactly once each: before-triggers in order, then during, then after
+        return band(runs == names, S.new.e.state == "BASE", S.new.e.before == [], S.new.e.during == [], S.new.e.after == [])
+
+    def _barrier(S):
+        # no during- or after-trigger runs while a Deferred returned by a before-trigger is still pending
+        for e in ev(S, "run"):
+            if e.target._name[0] in "da" and e.snap["pending"] != 0:
+                return False
+        return True
+
+    ensures = dict(every_trigger_once_in_phase_and_registration_order=_order, later_phases_wait_for_every_before_deferred=_barrier)
+    canaries = [("DeferredList(beforeResults).addCallback(self._continueFiring)", "DeferredList(beforeResults, fireOnOneErrback=True).addCallback(self._continueFiring)",
+                 "every_trigger_once_in_phase_and_registration_order"),
+                ("DeferredList(beforeResults).addCallback(self._continueFiring)", "self._continueFiring(None)", "later_phases_wait_for_every_before_deferred"),
+                ("        for phase in self.during, self.after:", "        for phase in self.after, self.during:", "every_trigger_once_in_phase_and_registration_order",
+                 "_ThreePhaseEvent._continueFiring")]
+
+
+class AddTrigger(Contract):
+    prop = "C12"
+    module = M
+    function = "_ThreePhaseEvent.addTrigger"
+    differential = False
+    calls = {"_ThreePhaseEventTriggerHandle": "native"}  # typing.NewType: the identity function
+    inputs = dict(phase=OneOf("before", "during", "after", "later"), existing=OneOf(0, 1))
+
+    def setup(self, i):
+        old = self.opaque("old")
+        lists = {p: ([(old, (), {})] if i.existing else []) for p in ("before", "during", "after")}
+        evt = self.make(base._ThreePhaseEvent, state="BASE", **lists)
+        f = self.opaque("f")
+        return dict(self=evt, args=[i.phase, f, 1], kwargs=dict(k=2), objs=dict(e=evt), ghost=dict(f=f, old=old, n=i.existing))
+
+    def bounded_inputs(self, tier):
+        return iter(())
+
+    raises = {KeyError: lambda S: S.i.phase == "later"}
+
+    def _added(S):
+        e, f, old, n = S.new.e, S.ghost["f"], S.ghost["old"], S.ghost["n"]
+        before = [(old, (), {})] * n
+        if S.exc is not None:
+            return all(getattr(e, p) == before for p in ("before", "during", "after"))
+        ok = S.result == (S.i.phase, f, (1,), {"k": 2})
+        for p in ("before", "during", "after"):
+            want = before + ([(f, (1,), {"k": 2})] if p == S.i.phase else [])
+            ok = ok and getattr(e, p) == want
+        return ok
+
+    ensures = dict(one_registration_appended_to_the_named_phase=_added)
+    canaries = [("getattr(self, phase).append((callable, args, kwargs))", "getattr(self, phase).insert(0, (callable, args, kwargs))",
+                 "one_registration_appended_to_the_named_phase")]
+
+
+class RemoveTriggerBase(Contract):
+    prop = "C12"
+    module = M
+    function = "_ThreePhaseEvent.removeTrigger"
+    also = ["_ThreePhaseEvent.removeTrigger_BASE"]
+    differential = False
+    inputs = dict(phase=OneOf("before", "during", "after"), which=OneOf(0, 1, 2), present=ForkBool())
+
+    def setup(self, i):
+        fs = [self.opaque("f0"), self.opaque("f1"), self.opaque("f2")]
+        regs = [(f, (k,), {}) for k, f in enumerate(fs)]
+        lists = {p: list(regs) for p in ("before", "during", "after")}
+        if not i.present:
+            del lists[i.phase][i.which]
+        evt = self.make(base._ThreePhaseEvent, state="BASE", **lists)
+        handle = (i.phase,) + regs[i.which]
+        return dict(self=evt, args=[handle], objs=dict(e=evt), ghost=dict(regs=regs))
+
+    def bounded_inputs(self, tier):
+        return iter(())
+
+    raises = {ValueError: lambda S: not S.i.present}
+
+    def _removed(S):
+        regs = S.ghost["regs"]
+        for p in ("before", "during", "after"):
+            want = list(regs)
+            if p == S.i.phase:
+                del want[S.i.which]
+            if getattr(S.new.e, p) != want:
+                return False
+        return True
+
+    ensures = dict(exactly_the_named_registration_is_removed=_removed)
+    canaries = [("getattr(self, phase).remove((callable, args, kwargs))", "getattr(self, phase).pop()", "exactly_the_named_registration_is_removed",
+                 "_ThreePhaseEvent.removeTrigger_BASE")]
+
+
+CONTRACTS = [FireEvent, AddTrigger, RemoveTriggerBase]
 BOUNDED = bounded("C12")
 _SCOPE = ("histories of add / remove / fire / callback / errback played through the real _ThreePhaseEvent and through "
           "ReactorBase.addSystemEventTrigger / removeSystemEventTrigger / fireSystemEvent, compared (order and arguments of "
@@ -10,11 +237,21 @@ _SCOPE = ("histories of add / remove / fire / callback / errback played through 
           "Deferreds fired in every order by callback or errback, removal at every point while firing, triggers removing "
           "each other, equal registrations removed by handle; thorough adds one registration and seeded random histories of "
           "6-20 triggers")
-NOTES = dict(explanation=_SCOPE, not_covered=["deductive contracts on _ThreePhaseEvent (DeferredList barrier and list "
-                                              "mutation during iteration; not built)"])
+NOTES = dict(explanation="fireEvent / _continueFiring proved for up to 2+2+1 triggers of arbitrary behaviour and every firing order; add / remove "
+                         "in the base state proved; longer histories and removal while firing bounded: " + _SCOPE,
+             not_covered=["more triggers per phase (the loops are `while list: pop(0)`; not proved inductively), triggers that add or remove "
+                          "triggers while the event fires, removeTrigger in the BEFORE state, ReactorBase's wrappers: bounded tier only"])
 MANIFEST = dict(
-    category="exploration",
-    text="Bounded stand-in only, on the real code: " + _SCOPE + ".",
-    note=EXPLORATION_NOTE,
-    technique="bounded exhaustive evaluation of an executable contract on the real code (stand-in; not proved)",
+    category="proof",
+    text="The real _ThreePhaseEvent.fireEvent / _continueFiring are proved for up to two before-, two during- and one "
+         "after-trigger of arbitrary behaviour (a before-trigger returns nothing, a pending, succeeded or failed Deferred, or "
+         "raises; the others return or raise) with the pending Deferreds fired in either order by callback or errback: every "
+         "trigger runs exactly once, before-triggers first in registration order, no later trigger runs while a "
+         "before-trigger's Deferred is pending -- and they do run once all have fired, failed or not -- then during- and "
+         "after-triggers in order; a raising trigger stops nothing; the lists end empty and the state BASE.  addTrigger "
+         "appends exactly one registration to the named phase; removeTrigger in the base state removes exactly the named "
+         "registration (ValueError if absent).  Longer histories, removal while firing and the reactor's wrappers are "
+         "exercised in the bounded tier only: " + _SCOPE + ".",
+    note="Trusted: pyvc, SMT solvers, the failure handler's __exit__, the bound on the number of triggers.  Everything else: bounded, never counted as proved.",
+    technique="contract-based deductive verification (complete symbolic case analysis of trigger behaviours and firing orders on the real code, Deferred machinery executed from source) + bounded exhaustive histories",
 )
